@@ -18,11 +18,26 @@ Definition parse_can (l: list N) : option (canframe * list N) :=
   end.
 Definition pflag {A E} (o: out A E) : N := match o with Panic => 2 | Hang => 3 | _ => 0 end.
 
-(* does re-encoding the frame for either link, or feeding it to reassembly, panic? *)
+(* does re-encoding the frame for either link, feeding it to reassembly, or building a small packet completed around it, panic? *)
+(* a small packet completed around f and built: f as the start frame of a packet of at most 3 frames, or f as the last continuation
+   frame (id 1 or 2) of one; the other frames carry one payload byte each *)
+Definition cont_frame (f: frame) (i: N) : frame := mkF (f_ne f) false true false i (f_addr f) 1 [i mod 256; 0; 0; 0; 0; 0; 0; 0].
+Definition start_for (f: frame) (lst: N) : frame := mkF (f_ne f) true true true lst (f_addr f) 1 [lst mod 256; 0; 0; 0; 0; 0; 0; 0].
+Definition feed_frame (b: out builder berr) (g: frame) : out builder berr := match b with Val b' => add_frame b' g | o => o end.
+Definition around (f: frame) : option (frame * list frame) :=
+  if f_st f then (if f_last f && (f_id f <=? 2) then Some (f, map (cont_frame f) (firstn (N.to_nat (f_id f)) [1; 2])) else None)
+  else if (1 <=? f_id f) && (f_id f <=? 2) then Some (start_for f (f_id f), map (cont_frame f) (firstn (N.to_nat (f_id f - 1)) [1]) ++ [f])
+  else None.
+Definition build_flag (f: frame) : N :=
+  match around f with
+  | Some (s, rest) => match fold_left feed_frame rest (builder_new s) with Val b => pflag (build b) | Panic => 2 | Hang => 3 | Fail _ => 0 end
+  | None => 0
+  end.
 Definition reencode_flags (f: frame) : list N :=
   let start := mkF (f_ne f) true true true 4095 (f_addr f) 1 [255; 0; 0; 0; 0; 0; 0; 0] in
   [ pflag (to_usart f); pflag (to_bxcan f); pflag (builder_new f);
-    match builder_new start with Val b => pflag (add_frame b f) | _ => 2 end ].
+    match builder_new start with Val b => pflag (add_frame b f) | _ => 2 end;
+    build_flag f ].
 
 Definition run_USD (case: list N) : list N :=
   let r := from_usart case in
@@ -70,7 +85,7 @@ Definition c04_ok (obs: list N) : list N :=
   match parse_fobs obs with
   | Some (inl f, flags) =>
       if negb (wf_frame f) then [50]                                  (* accepted frame is not well-formed *)
-      else if negb (length flags =? 4)%nat then BAD
+      else if negb (length flags =? 5)%nat then BAD
       else if negb (forallb (fun x => x =? 0) flags) then 51 :: flags  (* re-encoding / reassembly fails *)
       else []
   | Some (inr 1, _) => []
